@@ -1,11 +1,102 @@
-"""C20 — RIPscrip and IGS streams never crash (R-PANIC over root set GFX); stall clause: see R-MAG in C03's engine."""
+"""C20 — RIPscrip and IGS streams never crash (R-PANIC over root set GFX) + R-RIP-CURSOR (typestate of the RIP parameter
+cursor, on which the variable-length commands' `pop().unwrap()` and the `command.as_mut().unwrap()` rely).
+The stall clause (loop counts / sleeps driven by parameters) and the canvas-completeness clause are not decided here."""
 from analysis import facts as F
 from analysis import roots as R
+from analysis.expr import ExprBuilder, show
 from rules import panic_common as P
+
+RIP_PARSER = "parsers::rip::Parser"
+RIP_STATE = "parsers::rip::State"
+
+
+def _field_store(s, name, owner):
+    if s["k"] != "assign":
+        return False
+    proj = s["p"].get("p", [])
+    return bool(proj) and proj[-1] != "*" and proj[-1][0] == "f" and proj[-1][2] == name and proj[-1][3] == owner
+
+
+def rip_cursor(chk, f):
+    """every transition into State::ReadParams either starts a command (command = Some(..) and parameter_state = 0 are stored
+    on the way, in the same body) or returns from the continuation-line state SkipEOL"""
+    adt = f.adts.get(RIP_STATE)
+    if not chk.anchor(adt is not None and any(v["name"] == "ReadParams" for v in adt["variants"]) and any(v["name"] == "SkipEOL" for v in adt["variants"]),
+                      "R-RIP-CURSOR", "anchor missing: rip::State::{ReadParams, SkipEOL}"):
+        return
+    skip_discr = [v["discr"] for v in adt["variants"] if v["name"] == "SkipEOL"][0]
+    nstores = 0
+    nstart = 0
+    for b in f.bodies.values():
+        if b.kind not in ("fn", "method", "closure"):
+            continue
+        eb = None
+        for bi, k, s in b.stmts():
+            if not _field_store(s, "state", RIP_PARSER):
+                continue
+            eb = eb or ExprBuilder(b)
+            val = show(eb.rvalue(s["rv"]))
+            if "ReadParams" not in val:
+                continue
+            nstores += 1
+            # (i) command start: both resets dominate the store (same block earlier, or a dominating block)
+            def dominated_by(pred):
+                for bj, kj, sj in b.stmts():
+                    if pred(sj) and ((bj == bi and kj < k) or (bj != bi and b.dominates(bj, bi))):
+                        return True
+                return False
+            cmd_some = dominated_by(lambda sj: _field_store(sj, "command", RIP_PARSER) and "Some" in show(eb.rvalue(sj["rv"])))
+            cur_zero = dominated_by(lambda sj: _field_store(sj, "parameter_state", RIP_PARSER) and eb.rvalue(sj["rv"]) == ("const", 0))
+            if cmd_some and cur_zero:
+                nstart += 1
+                chk.obligation(True)
+                continue
+            # (ii) back from a continuation line: the store is dominated by the SkipEOL arm of a switch on self.state
+            ok = False
+            for sb in range(b.nblocks):
+                t = b.blocks[sb]["term"]
+                if t["k"] != "switch":
+                    continue
+                d = show(eb.operand(t["discr"]))
+                if "discr(" not in d or not d.rstrip(")").endswith("state"):
+                    continue
+                for val_, tgt in t.get("targets", []):
+                    if val_ == skip_discr and tgt is not None and (tgt == bi or b.dominates(tgt, bi)):
+                        ok = True
+            chk.obligation(ok)
+            if not ok:
+                chk.finding("%s|readparams-without-reset" % b.short(), rule="R-RIP-CURSOR", where="%s:%s" % (b.file, s["line"]), fn=b.short(),
+                            what="the parser enters State::ReadParams without storing command = Some(..) and parameter_state = 0 first "
+                                 "(and not from the SkipEOL arm): the next command would be parsed at a stale parameter index, which the "
+                                 "variable-length commands' pop().unwrap() and parse_parameter's command.as_mut().unwrap() rely on")
+    chk.floor("R-RIP-CURSOR", "stores of State::ReadParams", nstores, 3)
+    chk.floor("R-RIP-CURSOR", "command starts (command = Some, parameter_state = 0, state = ReadParams)", nstart, 1)
+    # no other body resets the cursor concept away: parameter_state is only ever stored a constant 0 or incremented by one
+    nps = 0
+    for b in f.bodies.values():
+        if b.kind not in ("fn", "method", "closure"):
+            continue
+        eb = None
+        for bi, k, s in b.stmts():
+            if not _field_store(s, "parameter_state", RIP_PARSER):
+                continue
+            eb = eb or ExprBuilder(b)
+            e = eb.rvalue(s["rv"])
+            nps += 1
+            txt = show(e)
+            ok = e == ("const", 0) or (e[0] == "bin" and e[1] in ("Add", "AddO") and ("const", 1) in (e[2], e[3]) and "parameter_state" in txt) \
+                or (e[0] == "field" and "parameter_state" in txt)
+            chk.obligation(ok)
+            if not ok:
+                chk.finding("%s|cursor-store|%s" % (b.short(), txt[:60]), rule="R-RIP-CURSOR", where="%s:%s" % (b.file, s["line"]), fn=b.short(),
+                            what="parameter_state is assigned `%s` (expected: 0 at command start, +1 per accepted character)" % txt[:80])
+    chk.floor("R-RIP-CURSOR", "stores to parameter_state", nps, 2)
 
 
 def run(chk):
     f = F.load()
     roots = R.gfx_roots(f)
     reviewed = P.run_scope(chk, "GFX", roots, floor_roots=4, floor_bodies=400, floor_sinks=300, reviewed_file="reviewed_safe.json")
-    return P.finish(chk, reviewed, "No undischarged panic origin is reachable from the RIPscrip / IGS entry points.")
+    chk.rules.append("R-RIP-CURSOR")
+    rip_cursor(chk, f)
+    return P.finish(chk, reviewed, "No undischarged panic origin is reachable from the RIPscrip / IGS entry points; the RIP parameter cursor is reset whenever a command starts.")
